@@ -400,7 +400,9 @@ func c02Sizes(c *Ctx) {
 		m.Entity = append(m.Entity, &gtfsrt.FeedEntity{Id: sp(fmt.Sprintf("al%d", i)), Alert: a})
 	}
 	b := marshalFeed(m)
-	c.Input(hash64(string(b)+tz.name), true, func() string { return fmt.Sprintf("%d trips x %d updates, %d vehicles, %d alerts x %d selectors/periods/translations, timezone=%s", n, mm, n, n, mm+1, tz.name) })
+	c.Input(hash64(string(b)+tz.name), true, func() string {
+		return fmt.Sprintf("%d trips x %d updates, %d vehicles, %d alerts x %d selectors/periods/translations, timezone=%s", n, mm, n, n, mm+1, tz.name)
+	})
 	r, err, ok := parseRT(c, b, &gtfs.ParseRealtimeOptions{Timezone: tz.loc})
 	if !ok {
 		return
